@@ -62,9 +62,9 @@ func stringify(value, replacer, space Value, liveKeys bool) (res StringifyResult
 					case v.Kind == Number:
 						item, has = NumberToString(v.N), true
 					case v.Kind == Object && v.O.Class == "String":
-						item, has = v.O.Prim.S, true
+						item, has = ToString(v), true
 					case v.Kind == Object && v.O.Class == "Number":
-						item, has = NumberToString(v.O.Prim.N), true
+						item, has = ToString(v), true
 					}
 					if !has {
 						continue
@@ -86,9 +86,9 @@ func stringify(value, replacer, space Value, liveKeys bool) (res StringifyResult
 		if space.Kind == Object {
 			switch space.O.Class {
 			case "Number":
-				space = Num(space.O.Prim.N) // ToNumber(space)
+				space = Num(ToNumber(space))
 			case "String":
-				space = Str(space.O.Prim.S) // ToString(space)
+				space = Str(ToString(space))
 			}
 		}
 		// steps 6-8
@@ -134,9 +134,9 @@ func (c *sctx) str(key S16, holder *Obj) ([]uint16, bool) {
 	if value.Kind == Object {
 		switch value.O.Class {
 		case "Number":
-			value = Num(value.O.Prim.N)
+			value = Num(ToNumber(value))
 		case "String":
-			value = Str(value.O.Prim.S)
+			value = Str(ToString(value))
 		case "Boolean":
 			value = value.O.Prim
 		}
